@@ -198,11 +198,29 @@ func TestPinnedRows(t *testing.T) {
 	m = get("PosRDeferTop")
 	check(m.lock == "read" && m.deferred && has(m, "a", "read", "read", ""), "RLock + defer RUnlock", m)
 	m = get("PosBracket")
-	check(m.lock == "write" && !m.deferred && m.post == 0 && has(m, "a", "assign", "write", "") && has(m, "m", "mapWrite", "write", "") && has(m, "m", "delete", "write", ""), "explicit bracket", m)
+	check(m.lock == "write" && m.deferred && m.post == 0 && has(m, "a", "assign", "write", "") && has(m, "m", "mapWrite", "write", "") && has(m, "m", "delete", "write", ""), "explicit bracket", m)
 	m = get("PosBracketReturnLocal")
-	check(m.lock == "read" && m.post == 1 && has(m, "list", "read", "read", ""), "bracket followed by a return of a fresh local", m)
-	m = get("NegBracketReturnsAlias")
-	check(m.lock == "partialBody", "returning a local defined directly from a field after the unlock", m)
+	check(m.lock == "read" && m.post == 0 && m.deferred && has(m, "list", "read", "read", ""), "bracket followed by a return of a fresh local", m)
+	m = get("PosBracketReturnsFieldValue")
+	check(m.lock == "read" && m.deferred && has(m, "m", "read", "read", ""), "RLock; x := field; RUnlock; return x", m)
+	m = get("PosUnlockBeforeEachReturn")
+	check(m.lock == "write" && m.sections == 1 && has(m, "a", "assign", "write", ""), "explicit unlock before each return", m)
+	m = get("PosDeferClosureDoesMore")
+	check(m.lock == "write" && has(m, "a", "assign", "write", "") && !has(m, "a", "assign", "none", ""), "deferred closure that writes and then unlocks", m)
+	m = get("PosLockInsideBranch")
+	check(m.lock == "write" && m.sections == 1 && has(m, "a", "assign", "write", ""), "lock inside an if, access in the same branch", m)
+	m = get("PosWrapperAndNoLockBody")
+	check(m.lock == "write" && has(m, "a", "assign", "write", "") && !has(m, "a", "assign", "none", ""), "locking wrapper + NoLock body", m)
+	m = get("PosMutexAlias")
+	check(m.lock == "write" && m.mutex == "mu" && has(m, "a", "assign", "write", ""), "mu := &t.mu; mu.Lock()", m)
+	m = get("NegLockPerIteration")
+	check(m.lock == "partialBody" && m.sections == 2 && has(m, "a", "assign", "write", ""), "one section per loop iteration: every access locked, but not ONE section", m)
+	for _, n := range []string{"NegUnlockOnOnePathOnly", "NegReturnWhileHolding", "NegLoopLeavesLockHeld", "NegDoubleLock", "NegUnlockNotHeld", "NegBreakWhileHolding"} {
+		m = get(n)
+		check(m.lock == "unknown", "irregular lock use must be reported", m)
+	}
+	m = get("NegGoroutineDoesNotInheritTheLock")
+	check(has(m, "a", "assign", "none", ""), "`go recv.method()` runs without the caller's locks", m)
 	m = get("PosTailDelegation")
 	check(m.lock == "write" && m.sections == 1, "return recv.locked() before the own section is an alternative path", m)
 	m = get("NegWriteUnderReadLock")
@@ -223,7 +241,7 @@ func TestPinnedRows(t *testing.T) {
 	check(len(m.elemEscapes) == 0, "a copied record does not escape", m)
 
 	m = get("NegEarlyUnlock")
-	check(m.lock == "partialBody" && has(m, "b", "assign", "none", ""), "early unlock: the later write is unlocked", m)
+	check(m.lock == "read" && !m.deferred && m.post == 1 && has(m, "b", "assign", "none", ""), "early unlock: the later write is unlocked", m)
 	m = get("NegNoUnlock")
 	check(m.lock == "unknown", "lock without unlock", m)
 	m = get("NegMismatchedPair")
